@@ -18,7 +18,7 @@ RULE = (
     "differentiation in longdouble; bound 1e-8*sqrt(T_aa T_bb) with reference diagonals. non-trivial = some "
     "off-diagonal shell block has an element above 1e-6 of that scale (single shell: l>0 or M>1)."
 )
-FLOOR = {"quick": 30, "thorough": 400}
+FLOOR = {"quick": 30, "thorough": 1000}
 DECIDING = ["eval:kinetic_energy_integral", "kernel:KineticEnergyIntegral"]
 REQUIRED_LINES = [
     ("gbasis/integrals/kinetic_energy.py", "return KineticEnergyIntegral(basis).construct_array_mix(coord_type)"),
@@ -28,7 +28,7 @@ ASSUMPTIONS = ["reference model vmon/ref/gto.py after self-test (HORTON kinetic 
 
 
 def gen_cases(tier, seed):
-    reps = 2 if tier == "quick" else 120
+    reps = 2 if tier == "quick" else 360
     cases = []
     for rep in range(reps):
         for (la, lb) in itertools.product(range(6), repeat=2):
